@@ -43,18 +43,19 @@ def strategy(tier):
     ci = st.integers(0, 9)
     hi = st.integers(0, 3)
     room = st.integers(0, 2)
+    mroom = st.one_of(st.integers(0, 2), st.integers(0, 5))   # 3..5: a sid
     to = st.one_of(st.none(), room, st.lists(room, min_size=1, max_size=3),
                    st.fixed_dictionaries({'sid': ci}))
     op = st.one_of(
         st.fixed_dictionaries({'op': st.just('connect'), 'h': hi,
                                'ns': st.integers(0, 1)}),
-        st.fixed_dictionaries({'op': st.just('enter'), 'c': ci, 'room': room,
+        st.fixed_dictionaries({'op': st.just('enter'), 'c': ci, 'room': mroom,
                                'via': hi}),
-        st.fixed_dictionaries({'op': st.just('enter'), 'c': ci, 'room': room,
+        st.fixed_dictionaries({'op': st.just('enter'), 'c': ci, 'room': mroom,
                                'via': hi}),
-        st.fixed_dictionaries({'op': st.just('leave'), 'c': ci, 'room': room,
+        st.fixed_dictionaries({'op': st.just('leave'), 'c': ci, 'room': mroom,
                                'via': hi}),
-        st.fixed_dictionaries({'op': st.just('close_room'), 'room': room,
+        st.fixed_dictionaries({'op': st.just('close_room'), 'room': mroom,
                                'ns': st.integers(0, 1), 'via': hi}),
         st.fixed_dictionaries({'op': st.just('emit'), 'via': st.one_of(
             hi, st.just('wo')), 'to': to, 'ns': st.integers(0, 1),
@@ -65,6 +66,11 @@ def strategy(tier):
                                'skip': st.none(), 'data': st.just('x')}),
         st.fixed_dictionaries({'op': st.just('emit_cb'), 'via': hi, 'c': ci}),
         st.fixed_dictionaries({'op': st.just('emit_cb'), 'via': hi, 'c': ci}),
+        # a client joins the room named after another client's session id,
+        # then that session id is addressed from the owner's host or another
+        st.fixed_dictionaries({'op': st.just('sid_room_emit'), 'x': ci,
+                               'y': ci, 'own_host': st.booleans(),
+                               'via': hi}),
         st.fixed_dictionaries({'op': st.just('emit_cb2'), 'via': hi,
                                'via2': hi, 'c': ci}),
         st.fixed_dictionaries({'op': st.just('ack'), 'c': ci,
@@ -144,6 +150,7 @@ def _run(case, cl, ref):
     tag = [0]
     kctr = [0]
     cross_host = [False]
+    sid_rooms = [False]
     multi_host_room = [False]
     member_steps = []   # steps of membership-affecting operations
 
@@ -201,16 +208,27 @@ def _run(case, cl, ref):
                             'server %r' % (step, cb_log[-3:],
                                            ref_cb_log[-3:]))
 
+    def room_pair(r):
+        """(room name in the cluster, room name on the single server):
+        0..2 ordinary rooms, 3..5 the session id of a client (a room named
+        like a session id; the two worlds issue different sids)."""
+        if r < len(ROOMS) or not cl.clients:
+            return ROOMS[r % len(ROOMS)], ROOMS[r % len(ROOMS)]
+        i = (r - len(ROOMS)) % len(cl.clients)
+        sid_rooms[0] = True
+        return cl.clients[i]['sid'], ref.clients[i]['sid']
+
     def compare_rooms(step):
+        csid = {c['sid']: 'client-%d' % n for n, c in enumerate(cl.clients)}
+        rsid = {c['sid']: 'client-%d' % n for n, c in enumerate(ref.clients)}
         for i in live():
             c = cl.clients[i]
             host = cl.hosts[c['host']]
-            a = set(map(repr, host.sio.rooms(c['sid'], namespace=c['ns'])))
+            a = {csid.get(r, repr(r)) for r in host.sio.rooms(
+                c['sid'], namespace=c['ns'])}
             rc = ref.clients[i]
-            b = set(map(repr, ref.sio.rooms(rc['sid'], namespace=rc['ns'])))
-            # personal rooms are named after (different) sids
-            a.discard(repr(c['sid']))
-            b.discard(repr(rc['sid']))
+            b = {rsid.get(r, repr(r)) for r in ref.sio.rooms(
+                rc['sid'], namespace=rc['ns'])}
             if a != b:
                 raise Violation('rooms-differ', 'step %s client %d: cluster '
                                 '%r, single server %r' % (step, i, a, b))
@@ -246,18 +264,19 @@ def _run(case, cl, ref):
                 ci = lv[op['c'] % len(lv)]
                 c, rc = cl.clients[ci], ref.clients[ci]
                 via = cl.hosts[op['via'] % nh]
-                room = ROOMS[op['room']]
+                room, rroom = room_pair(op['room'])
                 fn = 'enter_room' if k == 'enter' else 'leave_room'
                 via.h.do(getattr(via.sio, fn)(c['sid'], room, namespace=c['ns']))
-                ref.do(getattr(ref.sio, fn)(rc['sid'], room, namespace=rc['ns']))
+                ref.do(getattr(ref.sio, fn)(rc['sid'], rroom,
+                                            namespace=rc['ns']))
                 if via.idx != c['host']:
                     cross_host[0] = True
             elif k == 'close_room':
                 via = cl.hosts[op['via'] % nh]
-                room = ROOMS[op['room']]
+                room, rroom = room_pair(op['room'])
                 ns = NSS[op['ns']]
                 via.h.do(via.sio.close_room(room, namespace=ns))
-                ref.do(ref.sio.close_room(room, namespace=ns))
+                ref.do(ref.sio.close_room(rroom, namespace=ns))
             elif k == 'emit':
                 ns = NSS[op['ns']]
                 to = op['to']
@@ -301,9 +320,45 @@ def _run(case, cl, ref):
                                  'skip': sk_r, 'via': op['via'],
                                  'cursors': cursors_before,
                                  'idx': len(cl.bus) - 1}
+            elif k == 'sid_room_emit':
+                if len(lv) < 2:
+                    return
+                xi = lv[op['x'] % len(lv)]
+                yi = lv[op['y'] % len(lv)]
+                x, y = cl.clients[xi], cl.clients[yi]
+                if xi == yi or x['ns'] != y['ns']:
+                    return
+                hy = cl.hosts[y['host']]
+                hy.h.do(hy.sio.enter_room(y['sid'], x['sid'],
+                                          namespace=y['ns']))
+                ref.do(ref.sio.enter_room(ref.clients[yi]['sid'],
+                                          ref.clients[xi]['sid'],
+                                          namespace=y['ns']))
+                sid_rooms[0] = True
+                if not delayed:
+                    cl.drain_all()
+                via = cl.hosts[x['host']] if op['own_host'] else \
+                    cl.hosts[op['via'] % nh]
+                tag[0] += 1
+                cursors_before = [h.mgr.cursor for h in cl.hosts]
+                data = ({'tag': tag[0]}, 'sid-room')
+                via.h.do(via.sio.emit('ev', data, to=x['sid'],
+                                      namespace=x['ns']))
+                ref.do(ref.sio.emit('ev', data, to=ref.clients[xi]['sid'],
+                                    namespace=x['ns']))
+                emits[tag[0]] = {'step': step, 'ns': x['ns'],
+                                 'to': ref.clients[xi]['sid'], 'skip': None,
+                                 'via': via.idx, 'cursors': cursors_before,
+                                 'idx': len(cl.bus) - 1}
+                if x['host'] != y['host']:
+                    cross_host[0] = True
+                    multi_host_room[0] = True
             elif k in ('emit_cb', 'emit_cb2'):
                 ci = lv[op['c'] % len(lv)]
                 c, rc = cl.clients[ci], ref.clients[ci]
+                if len(list(ref.sio.manager.get_participants(
+                        rc['ns'], rc['sid']))) != 1:
+                    return      # a callback needs exactly one addressee
                 vias = [op['via']] + ([op['via2']] if k == 'emit_cb2' else [])
                 for v_ in vias:
                     via = cl.hosts[v_ % nh]
@@ -359,7 +414,7 @@ def _run(case, cl, ref):
         k = op['op']
         do_op(step, op)
         if k in ('enter', 'leave', 'close_room', 'sdisc', 'cdisc',
-                 'connect'):
+                 'connect', 'sid_room_emit'):
             member_steps.append(step)
         if not delayed:
             cl.drain_all()
@@ -400,6 +455,8 @@ def _run(case, cl, ref):
             labels.get('cross_host_callback') or multi_host_room[0]))
     if multi_host_room[0]:
         labels['multi_host_room'] = True
+    if sid_rooms[0]:
+        labels['room_named_like_sid'] = True
     return labels
 
 
